@@ -92,6 +92,10 @@ func ClassOf(p Program) *ClassSpec {
 			for _, k := range x.Fs {
 				walk(k, neg, via)
 			}
+		case PC:
+			for _, k := range x.Fs {
+				walk(k, neg, via)
+			}
 		case Or:
 			for _, k := range x.Fs {
 				walk(k, neg, via)
@@ -116,7 +120,13 @@ func ClassOf(p Program) *ClassSpec {
 	// several occurrences of one and the same atom (e.g. `if c then A else not A`) share a class
 	spec := found[0]
 	for _, f := range found[1:] {
-		if f.Path == nil || f.Kind != spec.Kind || (f.Via == nil) != (spec.Via == nil) || PathString(f.Path) != PathString(spec.Path) || (f.Other == nil) != (spec.Other == nil) || (f.Other != nil && PathString(f.Other) != PathString(spec.Other)) {
+		// different per-value kinds over one and the same property (a length or value range) share the
+		// value-count classes of that property; the class is named after the first of them
+		sameKind := f.Kind == spec.Kind || (f.Other == nil && spec.Other == nil)
+		if f.Path == nil || !sameKind || (f.Via == nil) != (spec.Via == nil) || PathString(f.Path) != PathString(spec.Path) || (f.Other == nil) != (spec.Other == nil) || (f.Other != nil && PathString(f.Other) != PathString(spec.Other)) {
+			return nil
+		}
+		if f.Via != nil && PathString(f.Via) != PathString(spec.Via) {
 			return nil
 		}
 		if f.Polarity == "neg" {
@@ -352,7 +362,15 @@ func (c *Checker) CheckVerdicts(p Program, sc Scope, code string, known map[stri
 	var obs []ob
 	used := map[string]bool{}
 	cs := ClassOf(p)
+	var perLevel []Validation // a validation listed under several levels is one observation per level
 	for _, v := range p.Validations {
+		for _, l := range LevelsOf(v) {
+			vl := v
+			vl.Level = l
+			perLevel = append(perLevel, vl)
+		}
+	}
+	for _, v := range perLevel {
 		if v.Level == "" {
 			continue // defined but not listed under any level: must never be reported
 		}
@@ -828,7 +846,15 @@ func (c *Checker) differential(p Program, sc Scope, code string, rounds int, onl
 		reported *smt.Term
 	}
 	var obs []ob
+	var perLevel []Validation
 	for _, v := range p.Validations {
+		for _, l := range LevelsOf(v) {
+			vl := v
+			vl.Level = l
+			perLevel = append(perLevel, vl)
+		}
+	}
+	for _, v := range perLevel {
 		for i := 0; i < g.N; i++ {
 			k := rkey(v.Level, v.Name, i)
 			reported, ok := rep.ByKey[k]
